@@ -305,6 +305,7 @@ protected:
     AssertionStack frames;
 
     sstat status = s_Undef; // The status of the last solver call
+    bool theoryModelComputed = false; // Whether the last solver call ended with computing the theory model
 
 private:
     std::unique_ptr<Theory> theory;
